@@ -18,12 +18,14 @@ THEOREMS = [
     "c20_load_configured",
     "c20_launch_exact",
     "c20_runner_launch_exact",
+    "c20_runner_one_launch_per_name",
     "c20_errors_classified",
     "c20_errors_surface",
     "c20_extra_members_ignored",
 ]
 RULE = (
-    "generated configuration documents (1..4 servers; args drawn from spaces/quotes/shell metacharacters/Unicode/empty "
+    "generated configuration documents (1..4 servers, 40% of the multi-server ones as FAMILIES: servers sharing command and args "
+    "and differing only in env / identical twins / sharing env and differing in args or command; args drawn from spaces/quotes/shell metacharacters/Unicode/empty "
     "strings/newlines; env absent/empty/1..3 values; timeout absent/int/float/string-number; extra members at every level) "
     "x entry point {load_config+stdio_client+send_initialize, __main__.test_server, server_manager.run_command} x "
     "{valid, missing file, invalid JSON (6 shapes), unknown server name}; a witness child records argv/environment/"
@@ -82,6 +84,8 @@ def gen_doc(rng, nservers=None):
         items = list(sc.items())
         rng.shuffle(items)
         servers[name] = dict(items)
+    if n >= 2 and rng.random() < 0.4:
+        relate(rng, servers)
     doc = {"mcpServers": servers}
     for k, v in rng.sample(TOP_EXTRAS, rng.choice([0, 0, 1, 2])):
         doc[k] = v
@@ -90,13 +94,48 @@ def gen_doc(rng, nservers=None):
     return dict(items)
 
 
+def relate(rng, servers):
+    """Turn the servers into RELATIVES of the first one: same launcher (command and args) with another
+    environment, identical twins, same environment with other args, ... — configurations in which two
+    servers coincide in part of their launch data (one launcher, several tenants)."""
+    names = list(servers)
+    base = servers[names[0]]
+    for n in names[1:]:
+        how = rng.choice(["env-only", "env-only", "twin", "args-only", "command-only", "env-presence"])
+        sc = servers[n]
+        own_cmd = sc["command"]
+        rel = {k: v for k, v in base.items() if k in ("command", "args", "env")}
+        rel = {k: (list(v) if isinstance(v, list) else dict(v) if isinstance(v, dict) else v) for k, v in rel.items()}
+        if how == "env-only":
+            keys = list((rel.get("env") or {}).keys()) or [rng.choice(ENV_KEYS)]
+            rel["env"] = {k: rng.choice([v for v in ENV_VALS if v != (base.get("env") or {}).get(k)]) for k in keys}
+        elif how == "env-presence":
+            if rel.get("env"):
+                rel.pop("env")
+            else:
+                rel["env"] = {rng.choice(ENV_KEYS): rng.choice(ENV_VALS)}
+        elif how == "args-only":
+            rel["args"] = list(rel.get("args", [])) + [rng.choice(ARGS)]
+        elif how == "command-only":
+            rel["command"] = own_cmd
+        for k in ("timeout",) + tuple(k for k, _ in SERVER_EXTRAS):
+            if k in sc:
+                rel[k] = sc[k]
+        servers[n] = rel
+
+
+def is_family(doc):
+    cmds = [sc.get("command") for sc in doc["mcpServers"].values()]
+    return len(set(cmds)) < len(cmds)
+
+
 def valid_cases(rng, doc):
     """the three entry points on one document"""
     names = list(doc["mcpServers"])
     out = []
     for e in ENTRIES:
         if e == "runner":
-            k = rng.randint(1, len(names))
+            k = len(names) if is_family(doc) else rng.randint(1, len(names))
             sel = rng.sample(names, k)
         else:
             sel = [rng.choice(names)]
@@ -152,7 +191,15 @@ class Entry(Suite):
         d0 = {"mcpServers": {"sqlite": {"command": "@W0"}}}
         d1 = {"mcpServers": {"a": {"command": "@W0", "args": ARGS[:16], "env": {}, "timeout": "2.5"},
                              "b": {"command": "@W1", "args": ARGS[16:], "env": {"LOG_LEVEL": "ERROR", "FOO": ""}, "timeout": 3}}}
-        for d in (d0, d1):
+        # one launcher, several tenants: same command and args, environments differ (c and d are identical twins)
+        d2 = {"mcpServers": {"tenant_a": {"command": "@W0", "args": ["--serve", "x y"], "env": {"MCP_TOKEN": "1", "FOO": "a b"}},
+                             "tenant_b": {"command": "@W0", "args": ["--serve", "x y"], "env": {"MCP_TOKEN": "debug", "FOO": "a b"}},
+                             "tenant_c": {"command": "@W0", "args": ["--serve", "x y"]},
+                             "tenant_d": {"command": "@W0", "args": ["--serve", "x y"], "timeout": 5}}}
+        # same environment, launchers differ
+        d3 = {"mcpServers": {"p": {"command": "@W0", "env": {"FOO": "1"}}, "q": {"command": "@W1", "env": {"FOO": "1"}},
+                             "r": {"command": "@W0", "args": ["-"], "env": {"FOO": "1"}}}}
+        for d in (d0, d1, d2, d3):
             for e in ENTRIES:
                 out.append({"entry": e, "file": "ok", "doc": d, "names": list(d["mcpServers"]) if e == "runner" else [list(d["mcpServers"])[-1]],
                             "expect": "valid"})
@@ -230,21 +277,38 @@ class Entry(Suite):
             wk = sorted(_launch_key(l) for l in want)
             gk = sorted(_launch_key(l) for l in got)
             if wk != gk:
-                got_cmds = sorted(l["cmd"] for l in got)
-                want_cmds = sorted(l["cmd"] for l in want)
-                if got_cmds != want_cmds:
-                    missing = [c for c in want_cmds if c not in got_cmds]
-                    if missing:
-                        return (f"not-launched/{e}", f"{e}: configured server(s) {missing} never launched "
-                                f"(launched: {got_cmds}; exception: {(o['raised'] or {}).get('name')})", {"launches": want})
-                    return (f"extra-launch/{e}", f"{e}: launched {got_cmds}, configuration names {want_cmds}", {"launches": want})
-                for w in want:
-                    g = next(l for l in got if l["cmd"] == w["cmd"])
+                # one launch per requested server name, as a multiset: match what can be matched exactly
+                rest_w, rest_g = list(want), list(got)
+                for w in list(rest_w):
+                    for g in rest_g:
+                        if _launch_key(g) == _launch_key(w):
+                            rest_w.remove(w)
+                            rest_g.remove(g)
+                            break
+                names_w = [n for n, w in zip(case["names"], want) if any(w is x for x in rest_w)]
+                if got and len(got) < len(want) and not rest_g and all(
+                        any(g["cmd"] == w["cmd"] and g["argv"] == w["argv"] for g in got) for w in rest_w):
+                    return (f"merged-launch/{e}", f"{e}: {len(want)} servers requested, {len(got)} launched; {names_w} share "
+                            f"command and args with a launched server and were never launched with their own environment",
+                            {"launches": want})
+                if len(got) < len(want) and len(rest_g) < len(rest_w):
+                    return (f"not-launched/{e}", f"{e}: {len(want)} servers requested, {len(got)} launched; no launch for "
+                            f"{names_w} (exception: {(o['raised'] or {}).get('name')})", {"launches": want})
+                if len(got) > len(want) and not rest_w:
+                    return (f"extra-launch/{e}", f"{e}: {len(got)} launches for {len(want)} requested servers; "
+                            f"extra: {[l['cmd'] for l in rest_g]}", {"launches": want})
+                # same number (or both sides unmatched): pair the leftovers by command and say what differs
+                for w in rest_w:
+                    g = next((l for l in rest_g if l["cmd"] == w["cmd"] and l["argv"] == w["argv"]), None) \
+                        or next((l for l in rest_g if l["cmd"] == w["cmd"]), None)
+                    if g is None:
+                        return (f"not-launched/{e}", f"{e}: no launch of {w['cmd']} for {names_w} "
+                                f"(launched: {sorted(l['cmd'] for l in got)})", {"launches": want})
                     if g["argv"] != w["argv"]:
                         return (f"wrong-argv/{e}", f"{e}: child saw argv {g['argv']!r}, configured {w['argv']!r}", {"launches": want})
-                    if g["env"] != w["env"]:
-                        return (f"wrong-env/{e}", f"{e}: child environment differs from the configured one "
-                                f"(keys seen {sorted(g['env'])}, wanted {sorted(w['env'])})", {"launches": want})
+                    return (f"wrong-env/{e}", f"{e}: child environment differs from the configured one "
+                            f"(keys seen {sorted(g['env'])}, wanted {sorted(w['env'])})", {"launches": want})
+                return (f"extra-launch/{e}", f"{e}: launches {[l['cmd'] for l in rest_g]} not asked for", {"launches": want})
             noinit = [l["cmd"] for l in got if not l["init"]]
             if noinit:
                 return (f"no-initialize/{e}", f"{e}: launched {noinit} but never sent initialize", {"launches": want})
@@ -271,7 +335,8 @@ class Entry(Suite):
         env = "absent" if "env" not in sc else ("empty" if not sc["env"] else "values")
         t = sc.get("timeout")
         tk = "absent" if t is None else type(t).__name__
-        return f"{case['entry']}/valid/env-{env}/timeout-{tk}/named{len(case['names'])}of{len(case['doc']['mcpServers'])}"
+        fam = "/family" if is_family(case["doc"]) else ""
+        return f"{case['entry']}/valid/env-{env}/timeout-{tk}/named{len(case['names'])}of{len(case['doc']['mcpServers'])}{fam}"
 
     def nontrivial(self, case, o):
         return case["expect"] == "valid"
@@ -303,6 +368,8 @@ class Entry(Suite):
             if not isinstance(sc, dict):
                 continue
             for k in list(sc):
+                if k == "env" and is_family(doc):
+                    continue  # keep what tells the relatives apart
                 if k != "command":
                     yield with_doc(dict(doc, mcpServers=dict(servers, **{n: {a: b for a, b in sc.items() if a != k}})))
             args = sc.get("args") or []
